@@ -247,4 +247,40 @@ def refIR : CompIR :=
 /-- the decidable obligation generated for `get_components` -/
 def compOk (ir : CompIR) : Bool := ir == refIR
 
+/-! ### `number_of_components`
+
+    def number_of_components(A):
+        _, csizes = get_components(A)
+        return len(csizes)
+-/
+
+structure NumIR where
+  recognised : Bool
+  origins : List (String × String)
+  param : String
+  /-- `<discard>, <sizes> = <callee>(<arg>)` -/
+  discard : String
+  sizes : String
+  callee : String
+  arg : String
+  /-- `return len(<lenOf>)` -/
+  lenOf : String
+  deriving DecidableEq, Repr
+
+/-- the routine with the extracted `get_components` as the callee -/
+def runNum (ir : NumIR) (gc : CompIR) (A : AMat Int n) : Except String Nat :=
+  if ir.arg = ir.param ∧ ir.lenOf = ir.sizes ∧ ir.discard ≠ ir.sizes ∧ ir.callee = "get_components" then
+    match run gc A with
+    | .ok r => .ok r.2.length
+    | .error e => .error e
+  else .error "NameError"
+
+def refNum : NumIR :=
+  { recognised := true,
+    origins := [("get_components", "def bct/algorithms/clustering.py:get_components"), ("len", "builtin")],
+    param := "A", discard := "_", sizes := "csizes", callee := "get_components", arg := "A", lenOf := "csizes" }
+
+/-- the decidable obligation generated for `number_of_components` -/
+def numOk (ir : NumIR) : Bool := ir == refNum
+
 end Bct.CoreIR.Comp
